@@ -17,7 +17,8 @@ impl Filter {
             Filter::U8(filter) => planner.filter(plan, filter),
             Filter::NullableU8(filter) => planner.nullable_filter(plan, filter),
             Filter::Indices(indices) => planner.select(plan, indices),
-            Filter::Null => planner.empty(plan.tag),
+            // No row passes a filter that is NULL: an empty, non-nullable vector of the column's base type
+            Filter::Null => planner.empty(plan.tag.non_nullable()),
             Filter::None => plan,
         }
     }
